@@ -1,10 +1,10 @@
 """C13 - editing a model invalidates everything derived from the old model.
 
 Small-scope exhaustive histories: ALL operation sequences up to a length bound
-over an alphabet of 14 operations chosen to cross every cache boundary
+over an alphabet of 15 operations chosen to cross every cache boundary
 (LP objective <-> quadratic objective, flip sense, add linear / nonlinear
 constraint, add a list of constraints introducing a new variable, tighten /
-change a bound, solve with auto / SLSQP / trust-constr / linprog, read
+change a bound, solve with auto / SLSQP / trust-constr / linprog / BFGS (a method that ignores bounds), read
 variables+bounds), on 3 base models; plus random long histories.
 Oracle: the twin process builds `Problem(current state)` from scratch and
 performs the same final observation; a sequential reference model in the
@@ -82,8 +82,8 @@ BASES = {
     },
 }
 OPS = ["min-lin", "min-quad", "max", "flip-same-object", "add-lin", "add-list", "add-nl", "tighten", "rebound", "solve-auto", "solve-SLSQP",
-       "solve-trust-constr", "solve-linprog", "read"]
-OBS = {"solve-auto", "solve-SLSQP", "solve-trust-constr", "solve-linprog", "read"}
+       "solve-trust-constr", "solve-linprog", "solve-BFGS", "read"]
+OBS = {"solve-auto", "solve-SLSQP", "solve-trust-constr", "solve-linprog", "solve-BFGS", "read"}
 
 
 def info(tier):
@@ -93,7 +93,7 @@ def info(tier):
         "exhaustive": True,
         "rule": "all %d operation sequences of length <= %d over %d operations x 3 base models (the last operation of each sequence "
         "ending in an observation is compared with the twin; prefixes are covered by the shorter sequences); the complete "
-        "family 'objective ; [constraint] ; solve m1 ; edit ; observe' (3x3x4x9x5 per base model; quick runs one third of it "
+        "family 'objective ; [constraint] ; solve m1 ; edit ; observe' (3x3x5x9x6 per base model; quick runs one third of it "
         "per seed); random histories of length <= 40 with every observation compared; distinct = distinct (base, sequence) pairs"
         % (n, MAXLEN[tier], len(OPS)),
         "required_cells": [f"base:{b}" for b in BASES] + [f"last:{o}" for o in OPS if o in OBS] + [f"op:{o}" for o in OPS],
